@@ -284,6 +284,11 @@ class CrawlRun(object):
         self.nreq += 1
         if self.nreq > self.max_requests:
             raise Runaway('requests')
+        for l in lines[1:]:
+            mr = re.match(rb'(?i)range:\s*bytes=(\d+)-\s*$', l)
+            if mr:
+                self.req_range = getattr(self, 'req_range', {})
+                self.req_range[self.nreq] = int(mr.group(1))
         d = self.site.lookup(host, port, path)
         owner = self.site.robots_owner(host if port == 80 else '%s:%d' % (host, port), path)
         kind = 'robots' if owner is not None else ('page' if d is not None else 'other')
@@ -329,9 +334,25 @@ class CrawlRun(object):
         self.site.hits[key] = hit + 1
         cls, data = self.site.respond(host, port, path, hit)
         self.answer_log.append(n)
+        start = getattr(self, 'req_range', {}).get(n)
+        ranged = (data is not None and data is not ENDLESS_INTERIM and start is not None and self.site.desc.get('honour_range')
+                  and data.startswith(b'HTTP/1.1 200 ') and b'\r\n\r\n' in data)
+        if ranged and start >= len(data.split(b'\r\n\r\n', 1)[1]):
+            cls = 'r416'
         self.log(e='resp', n=n, u=u, cls=cls, h=self.hidx_of(host, port, path))
         if data is not None and data is not ENDLESS_INTERIM:
             self.wire['http://%s%s%s' % (host, '' if port == 80 else ':%d' % port, path)] = data
+        if ranged:
+            # a server that honours Range (RFC 7233): the rest of the document, or 416 when nothing is left
+            head, body = data.split(b'\r\n\r\n', 1)
+            fields = [x for x in head.split(b'\r\n')[1:] if not x.lower().startswith(b'content-length:')]
+            if start >= len(body):
+                data = (b'HTTP/1.1 416 Range Not Satisfiable\r\nContent-Range: bytes */%d\r\nContent-Length: 0\r\n\r\n'
+                        % len(body))
+            else:
+                data = b'\r\n'.join([b'HTTP/1.1 206 Partial Content'] + fields + [
+                    b'Content-Range: bytes %d-%d/%d' % (start, len(body) - 1, len(body)),
+                    b'Content-Length: %d' % (len(body) - start)]) + b'\r\n\r\n' + body[start:]
         if data is None:
             ep.close()
         elif data is ENDLESS_INTERIM:
